@@ -588,6 +588,21 @@ theorem validate_no_panic_MQTTProxy (s : MqttSpec) :
   ⟨by decide, by decide, SpecGuards.validate_no_panic_MQTTProxy s⟩
 
 open EgVerif.Gen.FactsC13IR in
+/-- CircuitBreaker policy (sizes and admission test translated from `pkg/util/circuitbreaker`): for every
+accepted policy, every window a result can be pushed into has ≥ 1 bucket — closed-state windows always, the
+half-open window whenever a call is admitted in half-open state; `CountBasedWindow.Push` cannot index an empty
+bucket slice. (`cb_min_sized_window_violates`: false for the seeded sizing `min(minimumNumberOfCalls, permitted)`.) -/
+theorem cb_pushed_windows_have_buckets (p : CBLibPolicy) (h : p.accepted = true) :
+    Gen.FactsC13IR.extractionFailed = false ∧ cbPushSites = 1 ∧
+    (∀ e ∈ cbWindowSizesIR p, e.1 = "Closed" → 1 ≤ e.2) ∧
+    (∀ n : Int, 0 ≤ n → cbHalfOpenAdmitIR p n = true → ∀ e ∈ cbWindowSizesIR p, e.1 = "HalfOpen" → 1 ≤ e.2) ∧
+    (∀ e ∈ cbWindowSizesIR p, e.1 = "Closed" ∨ e.1 = "HalfOpen") :=
+  ⟨by decide, by decide, SpecGuards.cb_pushed_windows_have_buckets p h⟩
+
+/-- non-vacuity: the default policy and the boundary policy (1, 0, 0) are accepted -/
+example : (CBLibPolicy.ofJ (.obj [])).accepted = true ∧ (⟨1, 0, 0⟩ : CBLibPolicy).accepted = true := by decide
+
+open EgVerif.Gen.FactsC13IR in
 /-- **Every one of these statements is false for the validation before its `fix:` commit** (34c5ca9, 3dbd6e1,
 49d7036, e912cc4, 4536822, 4f68600): a spec / request the old validation accepted on which the translated
 panic side panics. -/
